@@ -629,6 +629,7 @@ func replayObligation(p *Prog, fr *FuncResult, o *Obl, dir string) (out replayOu
 	if fn == nil || fn.Pkg == nil || fn.Parent() != nil {
 		return replayOutcome{Detail: "replay not possible: closure or synthetic function"}
 	}
+	var unbuilt []string
 	r := &replayGen{g: g, tset: map[string]bool{}, vals: map[string]string{}, imports: map[string]string{}, pkg: fn.Pkg.Pkg, ptrVars: map[string]string{}, ints: map[int64]bool{}, maxLine: o.Lines}
 	specFuncsSrc = map[string]string{}
 	for _, prm := range fn.Params {
@@ -863,11 +864,20 @@ func replayObligation(p *Prog, fr *FuncResult, o *Obl, dir string) (out replayOu
 				out.Detail = msg
 				return
 			case strings.HasPrefix(msg, "panic"):
-				// a run-time panic of the real function on inputs that satisfy its precondition
-				if strings.Contains(msg, "runtime error") {
+				// a run-time panic confirms only the matching safety obligation; for any other obligation it means
+				// the reconstructed inputs are incomplete (e.g. an interface or map field left nil): inconclusive
+				kind := o.Kind
+				if (strings.HasPrefix(kind, "index") && strings.Contains(msg, "index out of range")) ||
+					(strings.HasPrefix(kind, "slice") && strings.Contains(msg, "slice bounds out of range")) ||
+					(strings.HasPrefix(kind, "nil") && strings.Contains(msg, "nil pointer dereference") && len(unbuilt) == 0) ||
+					(strings.HasPrefix(kind, "div") && strings.Contains(msg, "divide by zero")) ||
+					(strings.HasPrefix(kind, "makeslice") && strings.Contains(msg, "makeslice")) {
 					out.Confirmed = true
 				}
 				out.Detail = msg
+				if !out.Confirmed {
+					out.Detail += " (inconclusive: not the violated obligation's failure mode)"
+				}
 				return
 			default:
 				out.Detail = msg
